@@ -386,6 +386,24 @@ def level_by_cases(ck, F, pr, fl, val):
     ck.ob("C16-O1", sitestr(pr), mono, "severity table %s is strictly increasing debug<info<warning<critical<fatal" % prio if mono else
           "severity table %s does not rank debug<info<warning<critical<fatal" % prio, key="LevelFilter::priority|order")
     bad, n_eval = [], 0
+
+    def ctor_fields(threshold):
+        """the filter's members after LevelFilter(threshold): the constructor's member initialisers evaluated by cases (the threshold itself, or
+        whatever the constructor derives from it - a rank computed once)"""
+        out = {"QtLogger::LevelFilter::m_minLevel": threshold}
+        cts = [c_ for c_ in F.fn_all("QtLogger::LevelFilter::LevelFilter") if c_.d.get("kind") == "ctor" and not c_.d.get("copyctor") and not c_.d.get("movector") and c_.params]
+        if len(cts) == 1:
+            env = {"__fn__": cts[0], cts[0].params[0]["decl"]: threshold}
+            for i_ in cts[0].inits:
+                if i_.get("member") and isinstance(i_.get("e"), dict):
+                    try:
+                        v_ = Conc(F).eval(i_["e"], dict(env))
+                    except Unknown:
+                        continue
+                    if isinstance(v_, int):
+                        out[strip_tmpl(i_["member"])] = v_
+                        out[strip_tmpl(i_["member"]).split("::")[-1]] = v_
+        return out
     try:
         for t in SEVERITY:
             for th in SEVERITY:
@@ -393,7 +411,7 @@ def level_by_cases(ck, F, pr, fl, val):
                     if is_call(n, LM + "::type") and obj_is_param(skip_copies(n), raw_fl, 0):
                         return val[t]
                     return None
-                got = Conc(F, leaf=leaf).call_fn(raw_fl, ["<message>"], {"QtLogger::LevelFilter::m_minLevel": val[th]})
+                got = Conc(F, leaf=leaf).call_fn(raw_fl, ["<message>"], ctor_fields(val[th]))
                 n_eval += 1
                 if bool(got) != (SEVERITY.index(t) >= SEVERITY.index(th)):
                     bad.append("(%s, threshold %s) -> %s" % (t, th, bool(got)))
